@@ -308,3 +308,9 @@ pub open spec fn v1v_incomplete(v: V1V) -> bool { v matches V1V::Reject(k) && v1
 pub open spec fn v1bv_incomplete(v: V1BV) -> bool { v matches V1BV::Line(l) && v1v_incomplete(l) }
 pub open spec fn v1_res_incomplete(r: Result<V1Header, V1Error>) -> bool { r matches Err(e) && v1_err_incomplete(e) }
 pub open spec fn v1_bin_res_incomplete(r: Result<V1Header, V1BinError>) -> bool { r matches Err(e) && v1_bin_err_incomplete(e) }
+
+/// [C18] the input contains its first CR followed by at least one more byte, or 107 bytes have
+/// been supplied without any CR
+pub open spec fn c18_condition(s: Seq<u8>) -> bool {
+    v1_terminated(s) || (first_index_of(s, 13u8) >= s.len() && s.len() >= 107)
+}
